@@ -22,12 +22,12 @@ CLAIMS = {
          "Correspondence: enum flag x variant flag x ASCII/non-ASCII spellings, every 2^k case flip (k <= 8 quick / 12 thorough), look-alikes at each letter, Unicode lower/upper/casefold images, against ci and cs variants alike.",
          "DESIGN.md §6 C12", ""),
  'C16': ("Lean 4 proof: phf parser = plain parser for all inputs, key table duplicate-free under non-overlap; correspondence on twin enums with the phf feature",
-         "lean/StrumProofs/C16.lean: keys_accept, allKeys_nodup, phf_compiles, parse_first_match_phf, phf_same_result, phf_gen_ok. Correspondence: every field-less enum built twice (with / without use_phf, features=[phf]), "
+         "lean/StrumProofs/C16.lean: keys_accept, allKeys_nodup, phf_compiles, parse_first_match_phf, phf_same_result, phf_gen_ok, parse_accepting_any / parse_other_any (C01's two directions for any use_phf value). Correspondence: every field-less enum built twice (with / without use_phf, features=[phf]), "
          "spellings mixed/lower/upper/caseless/non-ASCII/empty/case-variants of each other, ci at both levels, default and disabled variants, C01/C12 input sets; twins compared with each other and with the model.",
          "DESIGN.md §6 C16", "phf::Map::get is modelled as exact lookup in a duplicate-free key list."),
  'C17': ("Lean 4 proof: fixed name => Formatter::pad model for all kinds and specs, argument lists of interpolated arms; correspondence + format! oracle",
-         "lean/StrumProofs/C17.lean: fixed_name_padded (unit/tuple/named, every spec), pad_charCount / pad_contains / takeChars_count (what pad does), named_args_cover, tuple_args_cover, unit_placeholder_rejected, empty_brace_rejected. "
-         "Correspondence: fill x align x width x precision x 0-flag grid on ASCII / multi-byte / empty names vs the Lean pad; placeholder literals (subsets, orders, repeats, nested specs, escaped braces, extreme payloads) vs format! with the same literal in Rust.",
+         "lean/StrumProofs/C17.lean: fixed_name_padded (unit/tuple/named, every spec), pad_charCount / pad_contains / takeChars_count (what pad does), capture_eq_parse (the macro's placeholder scanner = the format-string token grammar, every well-formed literal; Lemmas/Capture.lean), tuple_interp_of_wf / named_interp_of_wf / fixed_iff_no_placeholder_tokens, named_args_cover, tuple_args_cover, unit_placeholder_rejected, empty_brace_rejected. "
+         "Correspondence: fill x align x width x precision x 0-flag grid on ASCII / multi-byte / empty names vs the Lean pad; placeholder literals (subsets, orders, repeats, nested specs, escaped braces, extreme payloads) vs format! with the same literal in Rust; mode A: EVERY to_string literal up to length 5 (quick) / 7 (thorough) over {'{','}','a',':','0',' '} on a unit, tuple and named variant - accept/reject vs the model.",
          "DESIGN.md §6 C17", "Partial: the rendering of placeholders is format_args!'s, compared with format! in the Rust driver. Known finding F4 (tuple placeholders skipping a field) is listed in known_findings.json."),
  'C18': ("Lean 4 proof: error = f(s) with call log [s], no call on success, error type selection; correspondence with a call-counting parse_err_fn",
          "lean/StrumProofs/C18.lean: custom_err, no_call_on_success, std_err, custom_only_if_declared, err_types. Correspondence: C01's corpus without default variants x {custom, standard}; the corpus's parse_err_fn stores its argument and bumps a counter; "
@@ -72,14 +72,14 @@ CLAIMS.update({
 CLAIMS.update({
  'C07': ("Lean 4 proof: heck's word-splitting state machine = a declarative boundary rule, for every byte string; per-style table; mode-A exhaustive identifier correspondence + mode-B derive correspondence",
          "lean/StrumProofs/Lemmas/Heck.lean + C07.lean: heckWords_eq_specWords (transcribed heck 0.5 `transform` = split at non-alphanumerics + boundary before an upper-case char whose previous letter is lower-case, or upper-case with a lower-case next char), "
-         "convert_case_spec (all 11 styles), camel_eq_mixed, lower_upper_only_case, explicit_never_recased, style_table (all 16 accepted strings, kernel-evaluated). "
+         "convert_case_spec (all 11 styles), camel_eq_mixed, lower_upper_only_case, explicit_never_recased, specWords_flatten / pascal_letters_preserved (letters and digits kept in order), snake_separators_clean (no leading / trailing / doubled separator), style_table (all 16 accepted strings, kernel-evaluated). "
          "Correspondence: mode A - EVERY valid identifier over {a,b,A,B,0,_} up to length 5 (quick) / 7 (thorough) + dictionary x 16 style strings + rejected strings through the macro's own CaseStyle::from_str / convert_case run from /repo sources; "
          "mode B - sampled identifiers x 16 styles compiled with six derives (VARIANTS, printed forms, from_str of renamed and original spelling, round trip, explicit names untouched).",
          "DESIGN.md §6 C07", "heck 0.5.0 is a dependency: its `transform` is modelled (transcribed) and validated by the exhaustive mode-A run, not verified from its source. ASCII identifiers only (Unicode case mapping inside heck is not modelled)."),
 })
 CLAIMS.update({
  'C10': ("Lean 4 proof: get/set laws of a total map (write changes one slot, read returns last write), constructors, all / all_ok, disabled => panic; correspondence over exhaustive write/read histories",
-         "lean/StrumProofs/C10.lean: get_set, set_some_iff, new_order, filled_get, from_closure_get, transform_get, all_iff / all_values, all_ok_first_err, disabled_index_panics, table_keys - for tables of any size and values of any type. "
+         "lean/StrumProofs/C10.lean: table_refines (every write/read history = a pointwise-updated function), get_set, set_some_iff, new_order, filled_get, from_closure_get, transform_get, all_iff / all_values, all_ok_first_err, disabled_index_panics, table_keys - for tables of any size and values of any type. "
          "Correspondence: 1..8 enabled variants x six disabled placements; constructors with pairwise distinct values + dump; ALL set/get sequences of length 3-4 over all keys (N <= 4 quick / 6 thorough); random 40-op histories; "
          "all() over every subset mask, all_ok() with distinct Err values; disabled variants as Index / IndexMut.",
          "DESIGN.md §6 C10", "Field names `_<snake>` must be pairwise different for the struct to compile (rustc); the model's slots are positional."),
@@ -91,7 +91,7 @@ CLAIMS.update({
 })
 CLAIMS.update({
  'C20': ("Lean 4 proof: each rejection rule x applicable derive => reject, never panic, domain => accept, over a raw-attribute model of every derive's checks; mode-A class correspondence + mode-B rustc diagnostics",
-         "lean/StrumProofs/C20.lean: validate_reject_iff, never_panics, accepts_domain, rejects_non_enum (R1), rejects_data_variant_array/_table (R2), rejects_lifetime (R3), rejects_enum_attr / rejects_variant_attr / rejects_field_default_with (R4, R8), "
+         "lean/StrumProofs/C20.lean: rejects (one statement: every rule x every derive it applies to => reject, with the applicability matrix `applies`), validate_reject_iff, never_panics, accepts_domain, rejects_non_enum (R1), rejects_data_variant_array/_table (R2), rejects_lifetime (R3), rejects_enum_attr / rejects_variant_attr / rejects_field_default_with (R4, R8), "
          "rejects_defaults (R5, R6), rejects_transparent_shape / rejects_default_shape_display (R6), rejects_unit_placeholder (R7), rejects_half_parse_err (R9), rejects_prop_literal (R10); F6/F7 witnesses on the pinned behaviour. "
          "Correspondence: ~1600 items (every rule x every derive x positions x within/across attributes, plus in-domain controls): mode A runs the macro's *_inner functions in-process (ok / err / panic vs validate); "
          "mode B compiles rejected and accepted items in two crates with the real derives (incl. FromRepr) and reads rustc's JSON diagnostics per item file.",
@@ -99,7 +99,7 @@ CLAIMS.update({
 })
 CLAIMS.update({
  'C19': ("Lean 4 proof over the per-derive table of emittable references (no_std-clean, through the crate path, not shadowable), tied to the code by 'references of real expansions are a subset of the table' + three rustc build configurations",
-         "lean/StrumProofs/C19.lean: no_std_ok, crate_path_respected, shadow_safe for all 15 non-deprecated derives (finite tables, kernel-evaluated), deprecated_needs_std, F5 witness pinned_display_needs_alloc. "
+         "lean/StrumProofs/C19.lean: no_std_ok, crate_path_respected, shadow_safe for all 15 non-deprecated derives (finite tables, kernel-evaluated), deprecated_needs_std, F5 witness pinned_display_needs_alloc; the correspondence verdict uses the model's predicates (Ref.noStdOk, cratePathOk, shadowSafe via the driver's `refok`), so a new `::core::..` path in a harmless refactor does not alarm. "
          "Correspondence: (i) mode A - every expansion of the other properties' corpora, references extracted from the real token stream, must be within the model's list for that derive (a new allowed reference => no-failing-input-found; a disallowed one => violation); "
          "(ii) mode B - the corpora compiled as #![no_std] lib without alloc (strum default-features = false), with strum only reachable as renamed dependency / nested re-export + #[strum(crate = ..)], and with mod core/std/alloc shadowing in every module.",
          "DESIGN.md §6 C19", "Partial: the theorem is about which paths are emitted; that they resolve and type-check under the three configurations is rustc's verdict on the sampled corpora. FromRepr's expansion cannot be extracted in-process (proc_macro dependency): covered by (ii) only."),
